@@ -1,6 +1,6 @@
 (* Ops/C13.v — protocol entry points for property C13 (single-peaked on a tree). *)
 From Coq Require Import List NArith String.
-From PrefVerif Require Import Lib.Val Model.Tree.
+From PrefVerif Require Import Lib.Val Model.Tree Model.TreeAlgo.
 Import ListNotations.
 Open Scope string_scope.
 
@@ -23,6 +23,20 @@ Definition op_check_slow (v : val) : val :=
 Definition op_tree (v : val) : val :=
   ebool (tree_check (d_alts (dnth 0 v)) (d_edges (dnth 1 v))).
 
+(* payload (alts profile) -> (0 (verdict edges)) | (1 4): the mirror of Trick's loop, two instantiations of the
+   unspecified set iteration orders *)
+Definition e_edge (e : edge) : val := VL [eN (fst e); eN (snd e)].
+(* answer (verdict edges check) where check = spt_checkf alts profile edges (the mirror's own witness) *)
+Definition e_algo (alts : list N) (p : list (list N)) (r : bool * list edge) : val :=
+  VL [ebool (fst r); elist e_edge (snd r); ebool (spt_checkf alts p (snd r))].
+Definition op_algo (v : val) : val :=
+  let alts := d_alts (dnth 0 v) in let p := d_profile (dnth 1 v) in
+  eresult (e_algo alts p) (trick_fwd alts p).
+Definition op_algo2 (v : val) : val :=
+  let alts := d_alts (dnth 0 v) in let p := d_profile (dnth 1 v) in
+  eresult (e_algo alts p) (trick_bwd alts p).
+
 Definition ops : optable :=
   [ ("c13.decide", op_decide); ("c13.decide_slow", op_decide_slow);
-    ("c13.check", op_check); ("c13.check_slow", op_check_slow); ("c13.tree", op_tree) ].
+    ("c13.check", op_check); ("c13.check_slow", op_check_slow); ("c13.tree", op_tree);
+    ("c13.algo", op_algo); ("c13.algo2", op_algo2) ].
